@@ -177,7 +177,20 @@ let o_auths (key : string) = [ask 2 (cc_of key); ask 3 (cc_of key)]
 let rewrite_real cc wl = FndSearchC19.rewrite_tag_c19 is_letter is_number o_vals (o_auths cc) (cc_of cc) (wl = "1")
 
 let q_opt (s : string) = if s = "~" then None else Some (runes_of_hex s)
-let fs_sess cc i = { FndSearchC19.s_id = nn i; FndSearchC19.s_root = (i = "3"); FndSearchC19.s_cc = cc }
+(* a session reference: <id> or <id>l<level> (sess.authLvl, any int); a bare id means 1, 2 -> 20
+   (LevelAuth), 3 -> 30 (LevelRoot) *)
+let fs_sess_ref_c19 (r : string) : int * int =
+  match String.index_opt r 'l' with
+  | Some k -> (int_of_string (String.sub r 0 k), int_of_string (String.sub r (k + 1) (String.length r - k - 1)))
+  | None -> let i = int_of_string r in (i, if i = 3 then 30 else 20)
+let fs_sess cc r =
+  let (i, l) = fs_sess_ref_c19 r in
+  { FndSearchC19.s_id = n_of_int i; FndSearchC19.s_lvl = z_of_int l; FndSearchC19.s_cc = cc }
+(* the topic state shows the public queries of sessions 1..max(3, largest id named) *)
+let fs_nsess_c19 (ops : string list) : int =
+  List.fold_left (fun n s -> match String.split_on_char '.' s with
+    | ("d" | "g") :: r :: _ -> max n (fst (fs_sess_ref_c19 r))
+    | _ -> n) 3 ops
 let fs_req cc (s : string) : FndSearchC19.freq_c19 =
   match String.split_on_char '.' s with
   | ["d"; i; p; v] -> FndSearchC19.FSetDesc (fs_sess cc i, q_opt p, q_opt v)
@@ -196,9 +209,9 @@ let fs_call = function
     let a = fs_groups k.FndSearchC19.k_req ^ "!" ^ fmt_list "," k.FndSearchC19.k_opt ^ "!" ^ b2s k.FndSearchC19.k_active in
     "U!" ^ a ^ "&T!" ^ a
 let fs_q = function None -> "~" | Some q -> str_of_runes q
-let fs_state (t : FndSearchC19.fnd_c19) =
+let fs_state (ns : int) (t : FndSearchC19.fnd_c19) =
   fmt_list "," (Tags.sort_strings t.FndSearchC19.f_tags) ^ "!"
-  ^ String.concat "," (List.map (fun i -> fs_q (FndSearchC19.lookup_pub_c19 (n_of_int i) t.FndSearchC19.f_public)) [1; 2; 3])
+  ^ String.concat "," (List.map (fun i -> fs_q (FndSearchC19.lookup_pub_c19 (n_of_int i) t.FndSearchC19.f_public)) (List.init ns (fun i -> i + 1)))
   ^ "!" ^ fs_q t.FndSearchC19.f_private
 let fs_run masked own cckey cands ops =
   let cc = cc_of cckey in
@@ -210,9 +223,10 @@ let fs_run masked own cckey cands ops =
       | _ -> failwith ("bad candidate " ^ s)) (split ';' cands) in
   let c = { FndSearchC19.fc_masked = list_of' masked; FndSearchC19.fc_own = list_of' own;
             FndSearchC19.fc_self = n_of_int 0; FndSearchC19.fc_world = world } in
+  let ns = fs_nsess_c19 (split '/' ops) in
   let _, outs = List.fold_left (fun (t, acc) r ->
     let (t', (a, k)) = FndSearchC19.step_c19 lower is_letter is_number o_vals o_auths c t r in
-    (t', (fs_resp a ^ "|" ^ fs_call k ^ "|" ^ fs_state t') :: acc))
+    (t', (fs_resp a ^ "|" ^ fs_call k ^ "|" ^ fs_state ns t') :: acc))
     (FndSearchC19.load_c19 None, []) (List.map (fs_req cc) (split '/' ops)) in
   "FS " ^ String.concat "/" (List.rev outs)
 
@@ -223,6 +237,9 @@ let handle (w : string list) : string =
   | ["WR"; cc; wl; h] -> "WR " ^ str_of_runes (rewrite_real cc wl (runes_of_hex h))
   | ["QR"; cc; wl; h] -> show_q "QR" (Query.parse lower (rewrite_real cc wl) (runes_of_hex h))
   | ["FS"; masked; own; cc; cands; ops] -> fs_run masked own cc cands ops
+  (* "anon" scenario: in the driver the level-10 sessions get their level from the real anonymous
+     account creation / token login; the model is the same *)
+  | ["FS"; masked; own; cc; cands; ops; "anon"] -> fs_run masked own cc cands ops
   | ["Q"; wl; h] -> show_q "Q" (Query.parse lower (rewrite (wl = "1")) (runes_of_hex h))
   | ["QU"; wl; h] -> show_q "QU" (Query.parse_unrepaired lower (rewrite (wl = "1")) (runes_of_hex h))
   | ["QS"; wl; h] ->
